@@ -11,6 +11,12 @@ import time
 import traceback
 
 
+class VerdictDecided(BaseException):
+    """Raised by Tally.violation once the violation budget of a worker is
+    used up: the check's verdict is decided, further exploration only costs
+    time (and may never end if the code under test degrades from call to call)."""
+
+
 class Tally:
     """Mergeable counters + capped lists."""
 
@@ -21,6 +27,7 @@ class Tally:
         self.samples = []      # list of JSON-able
         self.harness_errors = []
         self.fpcount = {}
+        self.stop_raised = False
 
     def inc(self, k, n=1):
         self.c[k] = self.c.get(k, 0) + n
@@ -41,6 +48,11 @@ class Tally:
         if n < per_fp and len(self.fpcount) < 500:
             self.violations.append(v)
         self.inc("violations_total")
+        if fp not in KNOWN_FPS:
+            self.inc("new_violating_executions")
+            if self.c["new_violating_executions"] >= VIOLATION_BUDGET and not self.stop_raised:
+                self.stop_raised = True
+                raise VerdictDecided()
 
     def sample(self, s, cap=3):
         if len(self.samples) < cap:
@@ -70,6 +82,10 @@ class Tally:
 
 
 _WORK = None
+KNOWN_FPS = set()        # fingerprints of listed known findings (set by the CLI)
+VIOLATION_BUDGET = 400   # per worker: once this many executions violated the
+                         # property with unlisted fingerprints the verdict is
+                         # decided; the worker stops and coverage is reported as cut
 
 
 def _init(work, initfn):
@@ -102,9 +118,14 @@ def _do_chunk(chunk):
             old = None
         try:
             _WORK(item, t)
+        except VerdictDecided:
+            t.c["stopped_after_violation_budget"] = 1
+            t.c["deadline_hit"] = 1
+            break
         except ItemTimeout:
             # the code under test made the item run away (e.g. state that grows
             # from call to call): a verdict, not a harness problem
+            t.inc("items_did_not_finish")
             t.violation({"fingerprint": "item-did-not-finish",
                          "what": "work item did not finish within %.0f s: %r" % (
                              ITEM_BUDGET, repr(item)[:400]), "item": repr(item)[:2000]})
@@ -145,11 +166,24 @@ def _do_static(w):
     before (state leaking between instances) fails the same way every run."""
     procs, deadline = _STATIC
     t = Tally()
+    from . import lprun
     for j in range(w, len(_CHUNKS), procs):
         if deadline and time.time() > deadline:
             t.c["deadline_hit"] = 1
             break
+        if t.c.get("new_violating_executions", 0) >= VIOLATION_BUDGET:
+            t.c["deadline_hit"] = 1
+            t.c["stopped_after_violation_budget"] = 1
+            break
+        if lprun.TIMEOUTS >= 3 or t.c.get("items_did_not_finish", 0) >= 1:
+            # executions keep running away: stop this worker, the violations
+            # already recorded decide the verdict; coverage is reported as cut
+            t.c["deadline_hit"] = 1
+            t.c["aborted_after_runaway_executions"] = 1
+            break
         t.merge(_do_chunk(_CHUNKS[j]), vcap=400)
+        if t.c.get("stopped_after_violation_budget"):
+            break
     return t
 
 
